@@ -12,6 +12,7 @@ vars == <<cfg, phase>>
 Emit == "EMIT" \in DOMAIN IOEnv /\ IOEnv.EMIT = "1"
 
 K1 == TCls("K1")  K2 == TCls("K2")  K3 == TCls("K3")  W == TCls("W")  H == TCls("H")
+N == TCls("N")  H2 == TCls("H2")
 D(id, s, t, catch, bad) == Cv(id, s, t, catch, bad, <<>>, "none", "func")
 
 \* ---- deserializer pool
@@ -25,6 +26,9 @@ f3   == D("f3",  TInt, K3, FALSE, {DInt(13)})         \* registered for K3, NOT 
 f3s  == D("f3s", TStr, K3, TRUE, {DStr("bad")})       \* used as a sub-conversion
 f2   == D("f2",  TInt, K2, FALSE, {})                 \* target is a subclass of K1 (LSP)
 fk3sub == [fk3 EXCEPT !.id = "fk3sub", !.sub = <<f3s>>]
+\* a RECURSIVE conversion graph: K1 <- H2 (object) whose field x : K1 is converted from List[K1]
+fh   == D("fh",  H2, K1, FALSE, {})
+flk  == D("flk", TList(K1), K1, FALSE, {})
 
 \* ---- serializer pool
 S(id, s, t, inh, form) == Cv(id, s, t, FALSE, {}, <<>>, inh, form)
@@ -46,35 +50,43 @@ CT(xd, xs) ==
    K3 |-> [kind |-> "opq", sup |-> "", fields |-> <<>>],
    W  |-> [kind |-> "data", sup |-> "", fields |-> <<[name |-> "w", t |-> TInt, dconv |-> <<>>, sconv |-> <<>>]>>],
    H  |-> [kind |-> "data", sup |-> "", fields |-> <<[name |-> "x", t |-> K1, dconv |-> xd, sconv |-> xs],
-                                                     [name |-> "xs", t |-> TList(K1), dconv |-> <<>>, sconv |-> <<>>]>>]]
+                                                     [name |-> "xs", t |-> TList(K1), dconv |-> <<>>, sconv |-> <<>>]>>],
+   \* a NamedTuple: a Collection for the visitor, an object for its fields
+   N  |-> [kind |-> "data", sup |-> "", fields |-> <<[name |-> "x", t |-> K1, dconv |-> <<>>, sconv |-> <<>>]>>],
+   H2 |-> [kind |-> "data", sup |-> "", fields |-> <<[name |-> "x", t |-> K1, dconv |-> <<flk>>, sconv |-> <<>>]>>]]
 
 \* sequences of length <= 2 without repetition
 Seqs2(P) == {<<>>} \cup {<<a>> : a \in P} \cup {s \in P \X P : s[1] # s[2]}
 
 DPool == IF Tier = "quick" THEN {fi, fs, fk3, fw} ELSE {fi, fic, fs, fl, fw, fk3}
-EnvsD == {[ct |-> CT(xd, <<>>), regD |-> [K1 |-> r1, K2 |-> r2, K3 |-> <<f3>>, W |-> <<>>, H |-> <<>>],
-           regS |-> [K1 |-> <<>>, K2 |-> <<>>, K3 |-> <<>>, W |-> <<>>, H |-> <<>>], via |-> via]
-            : r1 \in Seqs2(DPool), r2 \in {<<>>, <<f2>>}, xd \in {<<>>, <<fs>>}, via \in {"reg", "param"}}
+EnvsD == {[ct |-> CT(xd, <<>>), regD |-> [K1 |-> r1, K2 |-> r2, K3 |-> <<f3>>, W |-> <<>>, H |-> <<>>, N |-> <<>>, H2 |-> <<>>],
+           regS |-> [K1 |-> <<>>, K2 |-> <<>>, K3 |-> <<>>, W |-> <<>>, H |-> <<>>, N |-> <<>>, H2 |-> <<>>], via |-> via]
+            : r1 \in Seqs2(DPool) \cup {<<fh>>, <<fh, fi>>, <<fs, fh>>}, r2 \in {<<>>, <<f2>>}, xd \in {<<>>, <<fs>>}, via \in {"reg", "param"}}
 DynsD == {<<>>, <<IdAll>>, <<IdOf(K1)>>, <<fs>>, <<fi, fs>>, <<f2>>, <<fk3sub>>, <<fs, IdAll>>}
 
 SPool(inh, form) == IF Tier = "quick" THEN {ti(inh, form), tl(inh, form), tk3(inh, form)}
                     ELSE {ti(inh, form), ts(inh, form), tl(inh, form), tw(inh, form), tk3(inh, form), tlk(inh, form)}
-EnvsS == {[ct |-> CT(<<>>, xs), regD |-> [K1 |-> <<>>, K2 |-> <<>>, K3 |-> <<>>, W |-> <<>>, H |-> <<>>],
-           regS |-> [K1 |-> r1, K2 |-> r2, K3 |-> <<ti3>>, W |-> <<>>, H |-> <<>>], via |-> via]
+EnvsS == {[ct |-> CT(<<>>, xs), regD |-> [K1 |-> <<>>, K2 |-> <<>>, K3 |-> <<>>, W |-> <<>>, H |-> <<>>, N |-> <<>>, H2 |-> <<>>],
+           regS |-> [K1 |-> r1, K2 |-> r2, K3 |-> <<ti3>>, W |-> <<>>, H |-> <<>>, N |-> <<>>, H2 |-> <<>>], via |-> via]
             : r1 \in {<<>>} \cup {<<c>> : c \in UNION {SPool(f[1], f[2]) : f \in Forms}},
               r2 \in {<<>>, <<ts2>>}, xs \in {<<>>, <<ts("none", "func")>>}, via \in {"reg", "param"}}
 DynsS == {<<>>, <<IdAll>>, <<IdOf(K1)>>, <<ts("none", "func")>>, <<tl("none", "func")>>, <<tk3sub>>,
           <<S("ts2", K2, TStr, "none", "func"), ti("none", "func")>>}
 
-Roots == {K1, K2, TList(K1), TOpt(K1), TUni(<<K1, TInt>>), TDict(K1), TTup(<<K1, TInt>>), H, TList(H), TUni(<<K3, K1>>)}
+Roots == {K1, K2, TList(K1), TOpt(K1), TUni(<<K1, TInt>>), TDict(K1), TTup(<<K1, TInt>>), H, TList(H), TUni(<<K3, K1>>), N, TList(N)}
 
 \* ---- data for deserialization
 Leaves == {DInt(1), DInt(13), DStr("a"), DStr("bad"), DNull, DArr(<<DInt(1), DInt(2)>>), DArr(<<DInt(13)>>),
-           DObj(<< <<"w", DInt(1)>> >>), DObj(<< <<"w", DStr("a")>> >>)}
+           DObj(<< <<"w", DInt(1)>> >>), DObj(<< <<"w", DStr("a")>> >>),
+           \* shapes of the recursive graph K1 <- H2{x: K1 <- List[K1]}
+           DObj(<< <<"x", DArr(<<>>)>> >>), DObj(<< <<"x", DArr(<< DObj(<< <<"x", DArr(<<>>)>> >>), DInt(1) >>)>> >>)}
 HData == {DObj(<< <<"x", a>>, <<"xs", DArr(<<b>>)>> >>) : a \in {DInt(1), DStr("a"), DStr("bad"), DInt(13)}, b \in {DInt(1), DStr("a")}}
          \cup {DObj(<< <<"x", DInt(1)>> >>), DObj(<< <<"x", DInt(1)>>, <<"xs", DArr(<<>>)>>, <<"y", DInt(1)>> >>)}
+NData == {DObj(<< <<"x", a>> >>) : a \in {DInt(1), DStr("a"), DStr("bad"), DInt(13)}} \cup {DObj(<<>>), DInt(1)}
 DataFor(T) ==
   CASE T.k = "cls" /\ T.n = "H" -> HData \cup {DInt(1)}
+    [] T.k = "cls" /\ T.n = "N" -> NData
+    [] T.k = "list" /\ T.e = N  -> {DArr(<<h>>) : h \in NData}
     [] T.k = "list" /\ T.e = H  -> {DArr(<<h>>) : h \in HData} \cup {DArr(<<>>)}
     [] T.k = "list"  -> {DArr(<<a>>) : a \in Leaves} \cup {DArr(<<DInt(1), DStr("a")>>), DArr(<<DStr("x"), DInt(13)>>), DArr(<<>>), DInt(1)}
     [] T.k = "dict"  -> {DObj(<< <<"k", a>> >>) : a \in Leaves} \cup {DObj(<<>>), DInt(1)}
@@ -84,8 +96,11 @@ DataFor(T) ==
 \* ---- values for serialization
 Inst(c) == Opq(c, "mk", DInt(4))
 HVal(c) == VInst("H", << <<"x", Inst(c)>>, <<"xs", VList(<<Inst("K1"), Inst(c)>>)>> >>)
+NVal(c) == VInst("N", << <<"x", Inst(c)>> >>)
 ValuesFor(T) ==
   CASE T.k = "cls" /\ T.n = "K1" -> {Inst("K1"), Inst("K2")}
+    [] T.k = "cls" /\ T.n = "N"  -> {NVal("K1"), NVal("K2")}
+    [] T.k = "list" /\ T.e = N   -> {VList(<<NVal("K1")>>)}
     [] T.k = "cls" /\ T.n = "K2" -> {Inst("K2")}
     [] T.k = "cls" /\ T.n = "H"  -> {HVal("K1"), HVal("K2")}
     [] T.k = "list" /\ T.e = H   -> {VList(<<HVal("K1")>>), VList(<<>>)}
@@ -140,7 +155,7 @@ IdentityBypasses ==
      PlainD(E, cfg.T, cfg.dyn) = StructPlainD(E, cfg.T, <<>>)
 \* the dynamic conversion never reaches the fields of an object
 DynamicIsLocalD ==
-  (Dir = "d" /\ cfg.T = H) => PlainD(E, H, cfg.dyn) = PlainD(E, H, <<>>)
+  (Dir = "d" /\ cfg.T \in {H, N}) => PlainD(E, cfg.T, cfg.dyn) = PlainD(E, cfg.T, <<>>)
 \* ... but reaches the elements of containers and unions (the generic identity applies to the
 \* container itself and is consumed there: docs, "bypass registered conversion", note)
 NoGenericId == \A i \in DOMAIN cfg.dyn : cfg.dyn[i] # IdAll
@@ -154,7 +169,7 @@ SerializersInherited ==
    /\ ~(E.regS["K1"][1].form \in {"obj", "lazy"} /\ E.regS["K1"][1].inh = "false")) =>
         PlainS(E, K2, <<>>) = PlainS(E, K1, <<>>)
 DynamicIsLocalS ==
-  (Dir = "s" /\ cfg.T = H) => PlainS(E, H, cfg.dyn) = PlainS(E, H, <<>>)
+  (Dir = "s" /\ cfg.T \in {H, N}) => PlainS(E, cfg.T, cfg.dyn) = PlainS(E, cfg.T, <<>>)
 ContainersReachS ==
   (Dir = "s" /\ cfg.T = TList(K1) /\ NoGenericId) =>
      PlainS(E, cfg.T, cfg.dyn) = (LET p == PlainS(E, K1, cfg.dyn) IN IF p.k = "unsup" THEN TUnsup ELSE TList(p))
